@@ -58,3 +58,16 @@ Definition render_partial (us : list (list ritem)) : list byte :=
 Definition op_message (d : dev) (mav : bool) (us : list sop) : dev * list byte * option error :=
   let '(d', out, e) := msg_run mav d us [] in
   (d', match e with None => render_response out | Some _ => render_partial out end, e).
+
+(* every queued error can be rendered by the response formatter: an item without extended text is written through
+   the ASCII-checked string formatter, so its message must be ASCII (all standard messages are) *)
+Definition err_printable (e : error) : bool :=
+  match eext e with Some _ => true | None => all_ascii (error_message e) end.
+Definition queue_printable (d : dev) : bool := forallb err_printable (queue d).
+
+(* the device after a session of messages, operation level *)
+Fixpoint session_ops (d : dev) (msgs : list (bool * list sop)) : dev :=
+  match msgs with
+  | [] => d
+  | (mav, us) :: msgs' => session_ops (fst (fst (op_message d mav us))) msgs'
+  end.
